@@ -154,12 +154,18 @@ func arraysRun[T num, A arr[T, A]](k kit[T, A], rc *RunCtx, o *Outcome) {
 	guardBefore := w.Bool(30)
 
 	newRoot := func() *arrView[T, A] {
-		rank := sizeDraw(w, 4, 6)
+		rank := sizeDraw(w, 4, 11) // 1-4 axes as a rule, 5-11 in one root of sixteen
 		dims := make([]int, rank)
 		for d := range dims {
 			dims[d] = sizeDraw(w, 6, 17)
 			if rank > 4 && dims[d] > 5 {
 				dims[d] = 1 + dims[d]%5
+			}
+			if rank > 5 && dims[d] > 3 {
+				dims[d] = 1 + dims[d]%3
+			}
+			if rank > 7 && dims[d] > 2 {
+				dims[d] = 1 + dims[d]%2
 			}
 			if w.Choose(8) == 7 {
 				dims[d] = 1
@@ -737,6 +743,12 @@ func arraysRun[T num, A arr[T, A]](k kit[T, A], rc *RunCtx, o *Outcome) {
 			if mismatch {
 				newShape = append(newShape, 2+w.Choose(2))
 			}
+			// reshaping to the array's own shape, handing back the very slice Shape() returned
+			ownShape := !mismatch && w.Choose(8) == 7
+			if ownShape {
+				newShape = append([]int(nil), rv.shape...)
+				o.probe("reshape_to_own_shape_slice")
+			}
 			what := fmt.Sprintf("%s.Reshape(%v)", rv.how, newShape)
 			x.log = append(x.log, what)
 			nv := &arrView[T, A]{ref: refView{root: rv.root, offs: rv.offs, shape: newShape, depth: rv.depth, stepped: rv.stepped, nested: rv.nested, how: what}}
@@ -746,7 +758,11 @@ func arraysRun[T num, A arr[T, A]](k kit[T, A], rc *RunCtx, o *Outcome) {
 				if !isGo {
 					fam, tag = "cdiff:bulk", "c/"
 				}
-				res, err := a.Reshape(newShape)
+				arg := newShape
+				if ownShape {
+					arg = a.Shape()
+				}
+				res, err := a.Reshape(arg)
 				if (err != nil) != mismatch {
 					x.fail(fam, "reshape-error-contract", tag+"reshape/error", "%s returned error %v; element counts %d vs %d", what, err, n, product(newShape))
 					return
@@ -757,6 +773,12 @@ func arraysRun[T num, A arr[T, A]](k kit[T, A], rc *RunCtx, o *Outcome) {
 					return
 				}
 				if mismatch {
+					return
+				}
+				if n > 0 && !res.Contiguous() {
+					// the result is the view's elements in row-major order: an alias of a contiguous
+					// view or a compact copy of a scattered one - adjacent either way
+					x.fail(fam, "reshape-result-not-compact", tag+"reshape/compact", "%s: the result reports Contiguous() == false (receiver contiguous: %v)", what, cons)
 					return
 				}
 				idx := make([]int, len(newShape))
@@ -906,7 +928,7 @@ func arraysRun[T num, A arr[T, A]](k kit[T, A], rc *RunCtx, o *Outcome) {
 		default:
 			if w.Choose(400) == 399 {
 				hugeCProbe(k, x, w)
-			} else if w.Choose(60) == 59 {
+			} else if w.Choose(240) == 239 {
 				largeBlockProbe(k, x, w)
 			} else if w.Choose(6) == 5 {
 				// a failing call: an out-of-range block write on a scratch array that is not in the
